@@ -2,7 +2,10 @@ package verifharness
 
 import (
 	"fmt"
+	"runtime"
+	"sync"
 	"testing"
+	"time"
 )
 
 // TestC04Audit: StorageAudit at every checkpoint publication (restricted to
@@ -73,5 +76,105 @@ func TestC04Growth(t *testing.T) {
 		r.Eval(int64(hr.Rounds))
 		r.Sample(map[string]any{"start": start, "rounds": hr.Rounds, "final_size": env.TruthLen()})
 		env.Cleanup()
+	}
+}
+
+// TestC04IssuerRace: concurrent submissions share a brand-new issuer whose
+// upload is held inside the backend call while a sequencing round runs. An
+// entry may only be pooled once its issuers are stored, so the round must not
+// publish a tree that references a missing issuer (audited at publication
+// against the stored leaves).
+func TestC04IssuerRace(t *testing.T) {
+	r := NewRun(t, "C04", "issuerrace")
+	r.Rule = "2-4 concurrent submissions sharing a new issuer, issuer upload gated inside the backend call (optionally failing, applied or not) while 1-2 sequencing rounds run, then released; every publication audited against the stored leaves (issuer objects must exist before the checkpoint upload is issued); distinct = (submitters, rounds while held, fault kind)"
+	rng := NewRng(r.Seed, "c04i")
+	n := pick(60, 1200)
+	for i := 0; i < n; i++ {
+		crng := rng.Fork(fmt.Sprint(i))
+		if !mine(i) {
+			continue
+		}
+		subs := 2 + crng.Intn(3)
+		rounds := 1 + crng.Intn(2)
+		fault := crng.Intn(4) // 0,1: none; 2: fail not applied; 3: fail applied
+		runIssuerRace(r, crng, subs, rounds, fault)
+		r.DistinctKey(fmt.Sprintf("%d/%d/%d", subs, rounds, fault))
+	}
+}
+
+func runIssuerRace(r *Run, rng *Rng, nsubs, rounds, fault int) {
+	env := NewLogEnv(r, rng.Fork("env"))
+	env.NoTruth = true
+	env.AuditPub = true
+	info := map[string]any{"workload": "issuer-race", "submitters": nsubs, "rounds_while_held": rounds, "fault": fault}
+	env.CaseInfo = func() any { return info }
+	defer env.Cleanup()
+	simAuto.Store(true)
+	defer simAuto.Store(false)
+	if err := env.Create(nil); err != nil {
+		panic(err)
+	}
+	li, err := env.Load("I", nil)
+	if err != nil {
+		panic(err)
+	}
+	r.Eval(1)
+	hold := make(chan struct{})
+	held := make(chan struct{}, 16)
+	li.In.Plan = func(c *Call) Decision {
+		d := decideOK
+		if c.Kind == OpUpload && len(c.Key) > 7 && c.Key[:7] == "issuer/" {
+			switch fault {
+			case 2:
+				d = Decision{Apply: false, Err: errInjected}
+			case 3:
+				d = Decision{Apply: true, Err: errInjected}
+			}
+			d.Gate = func() {
+				held <- struct{}{}
+				<-hold
+			}
+		}
+		return d
+	}
+	issuer := append([]byte("\x01fresh-issuer-"), rng.Bytes(24)...)
+	aw := &asyncWaiters{}
+	var wg sync.WaitGroup
+	for i := 0; i < nsubs; i++ {
+		e := genEntry(rng, cheapShape(rng))
+		e.Issuers = [][]byte{issuer}
+		wg.Add(1)
+		go func() {
+			defer wg.Done()
+			s := li.SubmitConcurrent(e, false)
+			aw.start(li, s)
+		}()
+		if i == 0 {
+			<-held // the first submitter is inside the issuer upload
+		}
+	}
+	// give the other submitters the chance to reach the pool (they must not)
+	for i := 0; i < 50; i++ {
+		runtime.Gosched()
+	}
+	time.Sleep(2 * time.Millisecond)
+	for i := 0; i < rounds; i++ {
+		if err, _ := li.Sequence(nil); err != nil {
+			env.violate("round-failed", "round failed while an issuer upload was in flight: %v", err)
+		}
+	}
+	close(hold)
+	wg.Wait()
+	li.Sequence(nil)
+	li.Sequence(nil)
+	aw.wg.Wait()
+	li.Abandon()
+	env.FinalChecks()
+	env.CheckAcks()
+	env.CheckAcksFinal()
+	if sth := env.PubSTH(); sth != nil {
+		for _, p := range env.AuditStored(sth) {
+			env.violate("final-audit:"+p.Class, "final audit: %s", p.Msg)
+		}
 	}
 }
